@@ -1193,3 +1193,77 @@ def orc_c07(case, obs):
 
 
 prop("C07", ["c07_frame", "c07_interleave", "c07_first_establishes"], ["DEC", "MEM"], gen_c07, [orc_c07])
+
+
+# ------------------------------------------------------------------------------------------------
+# C16 recovery after any history
+# ------------------------------------------------------------------------------------------------
+def gen_c16(rng, t):
+    out = []
+    for i in range(500 * t):
+        c = Case("c16_%d" % i)
+        slots = rng.choice([1, 1, 2, 4])
+        maxpdu = rng.choice([8, 32, 64])
+        mgr = rng.choice(["simple", "signal", MGR_ALL])
+        c.add("DNEW %d %d %s" % (slots, maxpdu, mgr))
+        for k in range(rng.range(0, slots + 2)):
+            c.add("DPROV %d" % (maxpdu + 3 * k))
+        # hostile history
+        for _ in range(rng.range(3, 25)):
+            r = rng.below(10)
+            if r < 3:
+                p = rng.choice(valid_traffic(rng, maxpdu))
+            elif r < 5:
+                p = mutate(rng, rng.choice(valid_traffic(rng, maxpdu)))
+            elif r < 8:
+                p = malformed_packet(rng)
+            else:
+                p = rng.bytes(rng.range(0, 10))
+            c.add("DECAP %s" % hx(p))
+            q = rng.below(15)
+            if q == 0:
+                c.add("DNEWPDU")
+            elif q == 1:
+                c.add("DPROVBACK")
+        # recovery: reset the label memory, make one buffer available
+        c.add("DRESET", "DPROV %d" % (maxpdu + 100))
+        rec = len(c.ops)
+        lab = rng.choice([L6A, L3A, "B"])
+        pl = rng.range(0, maxpdu)
+        kind = rng.below(2)
+        c.add("ENEW")
+        if kind == 0:
+            c.add("ENCAP %s %d 2048 %s %d 1" % (pdu_tok(rng, pl), rng.below(256), lab, pl + 4 + lab_len(lab)), "DECAPN -")
+        else:
+            pl = max(pl, 2)
+            c.add("ENCAP %s %d 2048 %s %d 1" % (pdu_tok(rng, pl), rng.below(256), lab, 7 + lab_len(lab) + rng.range(0, pl - 1)), "DECAPN -")
+            for _ in range(pl + 2):
+                c.add("EFRAGC %d 1" % rng.choice([13, 20, 100]), "DECAPN -")
+        c.meta["c16"] = rec
+        out.append(c)
+    return out
+
+
+def orc_c16(case, obs):
+    bad = []
+    rec = case.meta.get("c16")
+    if rec is None:
+        return bad
+    prov = obs[rec - 1]
+    if not (prov == "ok" or prov.startswith("err Overflow")):
+        return bad
+    i = rec + 1
+    t = case.ops[i].split(" ")
+    pdu, lab = tok_bytes(t[1]), t[4]
+    delivered = [ob for op, ob in zip(case.ops[i:], obs[i:]) if op.startswith("DECAPN") and ob.startswith("ok completed")]
+    answers = [ob for op, ob in zip(case.ops[i:], obs[i:]) if op.startswith("DECAPN") and ob != "nopkt"]
+    if len(delivered) != 1:
+        bad.append("after reset + provisioning the probe PDU was delivered %d times: %s" % (len(delivered), [a[:50] for a in answers][:6]))
+    else:
+        w, d = kv(delivered[0])
+        if d["data"] != hx(pdu) or d["label"] != lab or int(d["ptype"]) != 2048:
+            bad.append("probe PDU delivered wrongly: %s" % delivered[0][:120])
+    return bad
+
+
+prop("C16", ["c16_ready", "c16_complete", "c16_fragmented"], ["DEC"], gen_c16, [orc_c16])
